@@ -358,8 +358,8 @@ static void variant_generate(variant_t *v, uint64_t wseed, int idx, int tier)
 	}
 	v->seed = sim_rng_next(&r) >> 1;
 	/* faults: most runs fault free so that the relaxed oracle never hides an ordinary bug */
-	int fk = (int)sim_rng_below(&r, tier ? 6 : 8);
-	if (fk == 0) v->afail = 1 + (long)sim_rng_below(&r, 400);
+	int fk = (int)sim_rng_below(&r, tier == 2 ? 3 : (tier ? 6 : 8));      /* tier 2: every variant carries a fault (C13's stage) */
+	if (fk == 0) v->afail = 1 + (long)sim_rng_below(&r, tier == 2 ? 700 : 400);
 	else if (fk == 1) v->cfail = 1 + (long)sim_rng_below(&r, 60);
 	else if (fk == 2) v->wfail = 1 + (long)sim_rng_below(&r, 40);
 }
